@@ -162,3 +162,6 @@ mut("c19-blake2s-tail-copy-overread", "C19", "src/blake2s.rs",
     "                // word-wise copy of the buffered tail\n                for k in 0..((clen + 7) >> 3) {\n                    let w = unsafe { (data.as_ptr().add(j + 8 * k) as *const u64).read_unaligned() };\n                    self.buf[8 * k..8 * k + 8].copy_from_slice(&w.to_ne_bytes());\n                }\n",
     "BLAKE2s update copies the buffered tail in 8-byte words: reads up to 7 bytes past the caller's slice; the stray bytes "
     "are always overwritten or zero-padded before use, so no digest changes - only the interpreter step sees it")
+mut("c19-revert-fix-verify-split-empty", "C19", F,
+    "            // An empty list is not a VSS commitment; no share matches it.\n            if vsscomm.is_empty() {\n                return false;\n            }\n\n", "",
+    "revert of fix 2f86715 (verify_split on an empty commitment list)")
